@@ -252,6 +252,10 @@ func (af *AdaptationField) stuffAF() {
 // delta is how much shifting needs to be done.
 // this function must be called before the field is marked as present.
 func (af *AdaptationField) resizeAF(start int, delta int) error {
+	if af.stuffingStart() > PacketSize {
+		// the lengths announced by the optional fields run past the packet
+		return gots.ErrAdaptationFieldTooLarge
+	}
 	if delta > 0 { // shifting for growing
 		end := af.stuffingStart()
 		startRight := start + delta
@@ -539,6 +543,9 @@ func (af *AdaptationField) TransportPrivateData() ([]byte, error) {
 	if !hasTPD {
 		return nil, gots.ErrNoPrivateTransportData
 	}
+	if af.adaptationExtensionStart() > PacketSize {
+		return nil, gots.ErrAdaptationFieldTooLarge
+	}
 	return af[af.transportPrivateDataStart():af.adaptationExtensionStart()], nil
 }
 
@@ -602,6 +609,9 @@ func (af *AdaptationField) AdaptationFieldExtension() ([]byte, error) {
 	}
 	if !hasAFC {
 		return nil, gots.ErrNoAdaptationFieldExtension
+	}
+	if af.stuffingStart() > PacketSize {
+		return nil, gots.ErrAdaptationFieldTooLarge
 	}
 	return af[af.adaptationExtensionStart():af.stuffingStart()], nil
 }
